@@ -1,6 +1,7 @@
 package main
 
 import (
+	"go/token"
 	"strings"
 
 	"golang.org/x/tools/go/ssa"
@@ -31,6 +32,8 @@ func checkC17(c *Ctx) {
 		return p == "" || p == "db" || p == "cache"
 	}
 	runLockPairing(c, l, "LOCK-pairing", scope, lockHandoffs)
+	checkReferenceRootOlder(c)
+	checkFailedCommitDiscards(c)
 	var lossy []string
 	for fn, why := range ea.lossy {
 		lossy = append(lossy, l.fname(fn)+": "+why)
@@ -47,4 +50,159 @@ func checkC17(c *Ctx) {
 var lockHandoffs = map[string]map[string]bool{
 	"db.newMemDBIteratorMtxChoice":   {"local:db.mtx:r": true},
 	"db.newMemDBIteratorMtxChoice$1": {"db.mtx:r": true},
+}
+
+// checkReferenceRootOlder: SaveRoot(version, key) stores, under the root key
+// of `version`, a reference to a node of an OLDER version.  A commit whose
+// batch write failed leaves the new nodes keyed for `version` in memory and
+// queued in the (retained) batch; when the commit is repeated the root already
+// has a key of that very version, and a reference written then overwrites the
+// pending root node with a pointer to itself — the repeated commit reports
+// success over a version that cannot be read.  Decided: every SaveRoot call is
+// dominated by a test that the key's version differs from (is older than) the
+// version being saved.
+func checkReferenceRootOlder(c *Ctx) {
+	l := c.L
+	const R = "DOM-reference-root-older"
+	c.rule(R, "a reference root is written only for a root keyed in an older version (a commit repeated after a failed write must not reference itself)", 1)
+	saveRoot := l.Func("", "*nodeDB.SaveRoot")
+	fVer := l.Field("", "NodeKey", "version")
+	if saveRoot == nil || fVer == nil {
+		c.anchorMissing(R, "nodeDB.SaveRoot / NodeKey.version")
+		return
+	}
+	n := 0
+	for _, fn := range l.SrcFuncs {
+		if l.pkgPathOf(fn) != l.ModPath {
+			continue
+		}
+		for _, in := range callsIn(fn, predStatic(saveRoot)) {
+			n++
+			cc := callCommon(in)
+			ver, nk := stripTrivial(cc.Args[1]), stripTrivial(cc.Args[2])
+			nkPath := accessPath(nk)
+			isKeyVersion := func(v ssa.Value) bool {
+				v = stripTrivial(v)
+				ld, ok := v.(*ssa.UnOp)
+				if !ok || ld.Op != token.MUL {
+					return false
+				}
+				fa, ok := ld.X.(*ssa.FieldAddr)
+				if !ok || fieldVar(fa.X.Type(), fa.Field) != fVer {
+					return false
+				}
+				b := stripTrivial(fa.X)
+				return b == nk || (nkPath != "" && accessPath(b) == nkPath)
+			}
+			isVer := func(v ssa.Value) bool { return stripTrivial(v) == ver }
+			gs := findGuards(fn, func(cond ssa.Value) (bool, int) {
+				bo, ok := stripTrivial(cond).(*ssa.BinOp)
+				if !ok {
+					return false, 0
+				}
+				x, y, op := bo.X, bo.Y, bo.Op
+				if isVer(x) && isKeyVersion(y) {
+					x, y = y, x
+					op = map[token.Token]token.Token{token.LSS: token.GTR, token.GTR: token.LSS, token.LEQ: token.GEQ, token.GEQ: token.LEQ, token.EQL: token.EQL, token.NEQ: token.NEQ}[op]
+				}
+				if !isKeyVersion(x) || !isVer(y) {
+					return false, 0
+				}
+				switch op {
+				case token.NEQ, token.LSS:
+					return true, 0
+				case token.EQL, token.GEQ:
+					return true, 1
+				}
+				return false, 0
+			})
+			c.decide(R, l.fname(fn)+" writes a reference root", l.ipos(in), guardsEffect(gs, in), "only for a root whose key version differs from the version being saved",
+				"SaveRoot is reachable with a root keyed for the very version being saved (left behind by a commit whose write failed): the reference overwrites the pending root node with a pointer to itself, and the repeated commit reports success over an unreadable version")
+		}
+	}
+	if n < 1 {
+		c.anchorMissing(R, "no SaveRoot call found")
+	}
+}
+
+// checkFailedCommitDiscards: the operations queued by a commit whose physical
+// write failed belong to that commit.  If nodeDB.Commit returns the error but
+// keeps them in the batch, the next successful commit — possibly of different
+// content, after a Rollback — applies them: index entries and nodes of a
+// discarded working state become part of a later version.  Decided: on the
+// error edge of the physical write, every path to the return discards the
+// batch (closes it or replaces it).
+func checkFailedCommitDiscards(c *Ctx) {
+	l := c.L
+	const R = "PASS-failed-commit-discards"
+	c.rule(R, "the operations queued by a commit whose physical write failed are not left in the batch for a later commit to apply", 1)
+	commit := l.Func("", "*nodeDB.Commit")
+	fBatch := l.Field("", "nodeDB", "batch")
+	if commit == nil || fBatch == nil {
+		c.anchorMissing(R, "nodeDB.Commit / nodeDB.batch")
+		return
+	}
+	var writes []*ssa.Call
+	for _, in := range callsIn(commit, isBatchWrite) {
+		if cl, ok := in.(*ssa.Call); ok {
+			writes = append(writes, cl)
+		}
+	}
+	if len(writes) == 0 {
+		c.anchorMissing(R, "no physical write in nodeDB.Commit")
+		return
+	}
+	discards := func(in ssa.Instruction) bool {
+		if isStoreToField(in, fBatch) {
+			return true
+		}
+		cc := callCommon(in)
+		return cc != nil && cc.IsInvoke() && cc.Method.Name() == "Close" && isLoadOfField(fBatch)(cc.Value)
+	}
+	// carriers of the write errors (the two writes meet in a phi)
+	carriers := map[ssa.Value]bool{}
+	for _, w := range writes {
+		if e, has := errorValueOfCall(w); has && e != nil {
+			carriers[e] = true
+		}
+	}
+	for changed := true; changed; {
+		changed = false
+		allInstrs(commit, func(in ssa.Instruction) {
+			if phi, ok := in.(*ssa.Phi); ok && !carriers[phi] {
+				for _, e := range phi.Edges {
+					if carriers[stripTrivial(e)] {
+						carriers[phi] = true
+						changed = true
+					}
+				}
+			}
+		})
+	}
+	ok, found := true, false
+	var at ssa.Instruction = writes[0]
+	for _, b := range commit.Blocks {
+		iff := ifOf(b)
+		if iff == nil {
+			continue
+		}
+		v, nn, isNil := nilCond(iff.Cond)
+		if !isNil || !carriers[stripTrivial(v)] {
+			continue
+		}
+		found = true
+		at = iff
+		searchFrom([]point{blockStart(b.Succs[nn])}, func(in ssa.Instruction) bool {
+			if discards(in) {
+				return true
+			}
+			if _, isRet := in.(*ssa.Return); isRet {
+				ok = false
+				return true
+			}
+			return false
+		})
+	}
+	c.decide(R, "nodeDB.Commit failure edge discards the batch", l.ipos(at), found && ok, "the batch is closed / replaced before the error is returned",
+		"nodeDB.Commit returns the write error with the failed commit's operations still queued: the next successful commit applies them, also after Rollback() discarded the working state they belonged to")
 }
